@@ -162,6 +162,11 @@ def run(ctx):
         "noodles_bgzf::io::multithreaded_writer::builder::Builder.worker_count":
             "set_worker_count is #[deprecated] and documented as ignored (the rayon pool is configured globally)"})
 
+    ctx.rule("C20.R6", "VCF -> BCF keeps the keys: the header text order (INFO / FILTER / FORMAT) that the BCF reader numbers the dictionary "
+                       "from equals the order StringMaps::try_from numbers it in for the BCF writer (C10.R10)")
+    from .c10 import dictionary_order_rule
+    dictionary_order_rule(ctx, "C20.R6")
+
 
 def _table(fb, key):
     """(Format, Compression) -> (Inner variant | 'Err' | 'block', arm text) from the builder's tuple match."""
